@@ -4,6 +4,11 @@ from peg import Gram
 
 A, B, UA, NL = 97, 98, 65, 10
 EACUTE, EURO, FFFD = 0xE9, 0x20AC, 0xFFFD
+RN, RNL, KELVIN = 0x2163, 0x2173, 0x212A      # cased runes that are not letters (Roman numeral four, Nl) / whose lower case is ASCII
+FOLD_PAIRS = [[201, 233], [0x2163, 0x2173], [0x2164, 0x2174], [0x2165, 0x2175], [0x2166, 0x2176], [0x212A, 107]]
+LEAVES_FOLD = [("lit", (RN,), True), ("lit", (RNL,), True), ("lit", (A, RN), True), ("lit", (RN,), False), ("cls", (RN,), (), False, True),
+               ("cls", (), (RN, RN + 3), False, True), ("cls", (RNL,), (), True, True), ("lit", (107,), True), ("cls", (KELVIN,), (), False, True),
+               ("lit", (0xC9,), True), ("cls", (0xE9,), (), False, True)]
 
 # ---- shape trees -> node tables ---------------------------------------------------------
 LEAVES_FULL = [("lit", (A,), False), ("lit", (A, B), False), ("lit", (UA,), True), ("lit", (), False),
